@@ -29,7 +29,7 @@ from vlib import gen
 
 PID = "C15"
 GEN = ["curves"]
-LEAN = ["Ymq.Props.C15"]
+LEAN = ["Ymq.Props.C15", "Ymq.Props.C15Suyama"]
 AUDIT = "Ymq.Audit.C15"
 THEOREMS = [
     "Ymq.C15.chain_eval",
@@ -65,6 +65,20 @@ THEOREMS = [
     "Ymq.C15.addext_self_zero",
     "Ymq.C15.from_point_on_curve",
     "Ymq.C15.chainmul_degenerate_witness",
+    "Ymq.C15.lawful_nonvacuous",
+    "Ymq.C15.suyama_new_spec",
+    "Ymq.C15.element_sound",
+    "Ymq.C15.element_ladder_spec",
+    "Ymq.C15.params_sound",
+    "Ymq.C15.twisted_from_point_sound",
+    "Ymq.C15.suyama_curve_sound",
+    "Ymq.C15.from_point_sound",
+    "Ymq.C15.from_point_zero_coordinate",
+    "Ymq.C15.from_point_zero_truncated_witness",
+    "Ymq.C15.select_curve_sound",
+    "Ymq.C15.ecm_seeds_spec",
+    "Ymq.C15.select128_sound",
+    "Ymq.C15.curve128_from_spec",
 ]
 PROFILES = ["release", "chk"]
 TIMEOUT = 30.0
@@ -84,9 +98,17 @@ MODELLED = [
     "ecm::Curve::{add,_addext,addext,addextproj,subextproj,dblext,double,to_extended,is_valid,is_validext,twisted_from_point}, "
     "Suyama11::{add_g,double,is_valid,params,params_point}, ecm128::Curve::{ext,dblext,add,dbladd,double,is_valid} translated from the source (Ymq/Gen/Curves.lean)",
 ]
+MODELLED += [
+    "curve constructors (Ymq/Model/Suyama.lean, control flow around the translated formulas, every panic site a `panic`): "
+    "Suyama11::{new, element, params, params_point}, UnexpectedLargeFactor::new, zn_divide, Curve::{twisted_from_point, "
+    "fraction_modn, from_point} (u64 arithmetic of both profiles, the truncated factor), the curve selection of ecm::ecm "
+    "(seed generator, Suyama-11 curve, fallback curve, factor / give-up decision) and of ecm128::ecm, "
+    "impl From<&ecm::Curve> for ecm128::Curve",
+]
 UNMODELLED = [
-    "ZmodN / M128 Montgomery arithmetic is taken to be arithmetic in Z/n (C07); Suyama11::element, Curve::from_point, "
-    "ecm() curve selection and stage 2 are exercised through the oracle only",
+    "ZmodN / M128 Montgomery arithmetic is taken to be arithmetic in Z/n (C07), ZmodN::inv / gcd at their specification (C09); "
+    "the rayon branch of ecm() (order of the seeds under a thread pool); stage 1/stage 2 of ecm_curve are exercised "
+    "through the oracle only (index structure and hit statement: C16)",
 ]
 
 
@@ -1060,6 +1082,14 @@ CLAIM = ("Lean theorems: the 64-bit and the 1024-bit addition-chain builders are
          "sizes) and by differential runs (chains, every formula and the full scalar multiplications over Z/n, both "
          "profiles); a Python oracle with an independent Edwards/Weierstrass group law judges every implementation answer "
          "and demands a non-zero triple equal to the reference modulo every known prime factor of the modulus.")
+CLAIM += (" Curve constructors: for every seed >= 2 (all seeds ecm() generates: ecm_seeds_spec) the Suyama-11 construction, the "
+          "fallback construction and the selection logic of ecm()/ecm128 never panic, a curve that is run has its generator on it "
+          "(the code's own is_valid), and whenever a denominator is not invertible modulo n the code returns a divisor != 1 of n "
+          "(a proper one where it returns a pair) - never a curve with a bogus d; the ladder of element is double-and-add "
+          "([seed]G in every commutative group). Over any commutative ring with a lawful arithmetic context; Z/n is one "
+          "(lawful_nonvacuous). Tied to the code by K on every stage (boundary seeds: a denominator vanishes modulo one / "
+          "all / no prime factor) and on the real ecm::ecm / ecm128::ecm where the construction decides the outcome. "
+          "Counter-witness: from_point with a zero coordinate (direct call) reports n mod 2^64 as factor.")
 LEVEL_NOTE = ("Trusted: Lean kernel (+propext, Classical.choice, Quot.sound), the translator's parser, the sampled "
               "correspondence of the hand-written chain models, Python integers in the oracle. Modular arithmetic of "
               "ZmodN/M128 is taken to be Z/n (C07).")
